@@ -118,7 +118,7 @@ def h_invert(ctx, ploidy, hapx, female, naming, genome, purity_mode, symrow=None
     try:
         out = call.do_call(cna, None, "clonal", ploidy, p, hapx, female, genome)
     except Exception as exc:
-        ctx.claim(False, f"do_call raised {type(exc).__name__}")
+        claim_raised(ctx, "do_call", exc)
         return
     ctx.claim(len(out) == len(cna), "row count unchanged")
     cns = col(out, "cn")
@@ -162,7 +162,7 @@ def h_nonneg(ctx, ploidy, hapx, female, naming, genome, purity_mode, symrow=None
     try:
         out = call.do_call(cna, None, "clonal", ploidy, p, hapx, female, genome)
     except Exception as exc:
-        ctx.claim(False, f"do_call raised {type(exc).__name__}")
+        claim_raised(ctx, "do_call", exc)
         return
     classes = resolve_classes(ctx, classes, starts, ends, genome)
     cns = col(out, "cn")
